@@ -185,6 +185,8 @@ func (o *c19Out) explore(ep string, input string, fn func() string) string {
 		cls = "err"
 	case strings.HasPrefix(res, "STATE-CHANGED"):
 		cls = "state-changed"
+	case strings.HasPrefix(res, "INVARIANT-BROKEN"):
+		cls = "invariant-broken"
 	}
 	o.count(ep, cls)
 	if cls != "ok" && cls != "err" {
